@@ -138,6 +138,7 @@ type Machine struct {
 	ss       *syncState
 	now      int64
 	wc       *WorkerCache
+	connClosed bool
 	lastPkg  *ssa.Package
 	fcount   map[*fnInfo]int
 }
